@@ -207,9 +207,7 @@ def refine(P: Optional[TableState], N: TableState, res: dict, commit_order: Opti
             if f.entry_snapshot_id != new.id or f.entry_seq != new.seq:
                 out.append(("R.carry", f"added file {p} stamped ({f.entry_snapshot_id},{f.entry_seq}) "
                                        f"not ({new.id},{new.seq})"))
-        exp_op = "append" if res.get("appends") else "delete"
-        if new.op != exp_op:
-            out.append(("R.op", f"operation {new.op} != {exp_op}"))
+        # (the snapshot's operation LABEL is not part of any listed property and is deliberately not checked)
 
     # snapshot log: retained only, commit order
     exp_log = [sid for (_t, sid) in P.snapshot_log if sid in nids]
